@@ -114,19 +114,30 @@ func (gc *primaryGC) gc(ctx context.Context, lowUsePercent int64, timeLimit time
 	// record named by the handed-over freelist is on disk before the freelist
 	// is applied. Otherwise an entry for a record that is still pooled is
 	// consumed without effect and the stale record survives.
-	if _, err := gc.freeList.ToGC(); err != nil {
-		return 0, fmt.Errorf("cannot get freelist gc file: %w", err)
-	}
-	if _, err := gc.primary.Flush(); err != nil {
-		return 0, fmt.Errorf("cannot flush primary: %w", err)
-	}
-
-	affectedSet, err := processFreeList(ctx, gc.freeList, gc.primary.basePath, gc.primary.maxFileSize)
-	if err != nil {
-		if err == context.DeadlineExceeded {
-			return gc.reclaimed, err
+	//
+	// Do this twice: an unfinished cycle leaves its .gc file behind, and ToGC
+	// then returns that file without handing over the entries recorded since.
+	// The second pass hands those over, so that no superseded record is still
+	// marked as in use when records are relocated below.
+	affectedSet := make(map[uint32]struct{})
+	for pass := 0; pass < 2; pass++ {
+		if _, err := gc.freeList.ToGC(); err != nil {
+			return 0, fmt.Errorf("cannot get freelist gc file: %w", err)
 		}
-		return 0, fmt.Errorf("cannot process freelist: %w", err)
+		if _, err := gc.primary.Flush(); err != nil {
+			return 0, fmt.Errorf("cannot flush primary: %w", err)
+		}
+
+		affected, err := processFreeList(ctx, gc.freeList, gc.primary.basePath, gc.primary.maxFileSize)
+		if err != nil {
+			if err == context.DeadlineExceeded {
+				return gc.reclaimed, err
+			}
+			return 0, fmt.Errorf("cannot process freelist: %w", err)
+		}
+		for fileNum := range affected {
+			affectedSet[fileNum] = struct{}{}
+		}
 	}
 
 	// Remove all files in the affected set from the visited set.
